@@ -190,6 +190,8 @@ def judge(job, inputs, verbose=False, prebuilt=None):
     for prt in parts:
         target = getattr(target, prt)
     callargs = [args[p] for p in job['params'] if p not in job.get('ghost', {})]
+    if isinstance(target, property):
+        target = target.fget
     exc = None
     result = None
     try:
@@ -208,7 +210,7 @@ def judge(job, inputs, verbose=False, prebuilt=None):
             for ecls, cond in table.items():
                 if ecls in [c.__name__ for c in type(exc).__mro__] or ecls == 'struct.error' and type(exc).__name__ == 'error':
                     try:
-                        if eval_spec(cond, ns, pre_ns, glob):
+                        if eval_spec(cond, dict(pre_ns), pre_ns, glob):
                             allowed = True
                     except Exception:
                         pass
@@ -218,7 +220,7 @@ def judge(job, inputs, verbose=False, prebuilt=None):
         return 'ok', detail
     for ecls, cond in job.get('raises', {}).items():
         try:
-            if eval_spec(cond, ns, pre_ns, glob):
+            if eval_spec(cond, dict(pre_ns), pre_ns, glob):
                 detail['why'] = 'contract demands %s when (%s) but the call returned normally' % (ecls, cond)
                 return 'violation', detail
         except Exception:
